@@ -612,7 +612,16 @@ def caller_correspondence(ctx):
     finally:
         sp._quadratic_bezier_spline = orig_bz
 
-    text = HEADER + 'From PB Require Import gen.GenKernels.\nDefinition cases : list bool := [\n' + \
+    # np.flatnonzero: model against NumPy on a FIXED enumeration of masks (all masks of length <= 6, a few longer)
+    import itertools
+    fixed_masks = [list(m) for n in range(0, 7) for m in itertools.product((False, True), repeat=n)]
+    fixed_masks += [[i % 3 == 0 for i in range(17)], [True] * 12, [False] * 12, [i in (0, 11) for i in range(12)]]
+    for mask in fixed_masks:
+        got = [int(v) for v in np.flatnonzero(np.array(mask, dtype=bool))]
+        ctx.case(('fnz', tuple(mask)), any(mask), kind='caller:flatnonzero')
+        lits.append(f'zl_eqb (flatnonzero {bools(mask)}) {zlist(got)}')
+
+    text = HEADER + 'From PB Require Import gen.GenKernels C05.Fnz.\nDefinition cases : list bool := [\n' + \
         ';\n'.join('  ' + t for t in lits) + '\n].\nEval vm_compute in (bad (fun b : bool => b) cases).\n'
     ob = 'correspondence:caller-arguments(peak_filling,loess,spline,padded_rolling_std,find_peak_segments,corner_cutting)'
     ctx.obligations.append(ob)
